@@ -309,8 +309,11 @@ func TestVerifC01(t *testing.T) {
 		o := ps.run(q)
 		ok, msg := c01Monitor(ps.cfg, q, &o)
 		res := o.Result
+		var defs []vfDef
+		coq := plCaseCoqShared("CPipe", ps, q, &o, &defs)
 		c := vfCase{
-			Coq:        plCaseCoq(ps, q, &o),
+			Coq:        coq,
+			Defs:       defs,
 			Nontrivial: res != nil && res.Reason != filtering.NotFilteredNotFound,
 			Classes:    append(c01Classes(ps.cfg, q, &o), extra...),
 			MonitorOK:  ok,
